@@ -698,6 +698,9 @@ def w_entry(rep, ex: Explorer, be: Backend, strict=True, extended=False, prefix=
                 n += 1
                 start_total(rep, site, p, ev)
                 objs = rec_objects(be, ev)
+                oids = [s_[1] for s_ in ev.snap if s_[0] in ("wcnf", "solver")]
+                rep.check(len(set(oids)) == len(oids) and len(objs) == n_objects, f"{prefix}.start", f"{site}:{ev.node.lineno}", "separate constraint objects (extended)", "each side has a constraint object of its own (what is fixed for one side must not constrain the other)",
+                          extracted=f"{len(oids)} arguments, {len(set(oids))} distinct object(s)", required=f"{n_objects} distinct object(s)", function=site)
                 for i, (hard, soft) in enumerate(objs):
                     want = [INF_ITEM]
                     if be.lex and be.name == "rc2":
@@ -1147,3 +1150,23 @@ def preprocess_flow(rep, ex: Explorer, be: Backend, prefix):
             rep.check(ok, "Z3.translate", site, "translated partition", "the stored partition has the same layers in the same order, every conditional translated with antecedent and consequent preserved",
                       extracted=det, required="[[translate(c) for c in layer] for layer in partition], A≡c.A, B≡c.B", function=site)
     rep.floor(f"{rule} paths ({be.name})", n, 1)
+
+
+def object_identity(rep, ex: Explorer):
+    """OBJ.identity: the object-based back-ends (z3 operators, object-based partition) keep conditionals in sets and test
+    `c in xi` / `c not in xi` on the objects; the key-based ones count by key.  Two conditionals of a base with the same
+    content are two conditionals (two keys), so the objects must compare by identity: no `__eq__` / `__hash__` on
+    Conditional or a subclass."""
+    prog = ex.prog
+    n = 0
+    for cname, ci in prog.classes.items():
+        mro = prog.mro(cname)
+        if not any(c.endswith("conditional.Conditional") for c in mro):
+            continue
+        n += 1
+        for m in ("__eq__", "__hash__"):
+            defined = m in ci.methods
+            where = f"{ci.module.replace('.', '/')}.py:{cname.rsplit('.', 1)[1]}"
+            rep.check(not defined, "OBJ.identity", where, f"{m}", "conditionals compare by identity (equal content under different keys are different conditionals; sets of conditional objects must not merge them)",
+                      extracted=f"{cname.rsplit('.', 1)[1]}.{m} is defined" if defined else "object identity", required="not overridden", function=where + "." + m)
+    rep.floor("conditional classes", n, 2)
